@@ -465,7 +465,7 @@ pub fn run(session: &Session) -> i32 {
         session.run_enum(&C17, cases);
     }
     if !session.stopped() {
-        session.run_tapes(&C17, session.tier.of(12_000, 600_000), 600, 0);
+        session.run_tapes(&C17, session.tier.of(20_000, 600_000), 600, 0);
     }
     session.finish(
         "(repl) tape-generated typed programs are split into REPL inputs of 1-3 top-level statements; after every input the incremental route (parse against the live interpreter, exec_unscoped) is compared with the batch route (the whole prefix as one program into a fresh interpreter) on the last result and on the canonical value of every top-level variable, until the routes diverge in acceptance (allowed, counted) or end in the same error; the full program is then executed twice from one Code: equal canonical results, no cell of the first result is the same object as a cell of the second, and the interpreter the code was parsed against has none of the program's names. (call) every third (quick) / every (thorough) accepted one-parameter function of the operator x operand-type matrix x every value of every catalogue type, plus arity changes, and 24 functions of 0 to 3 parameters (all argument triples over 5 values for the three-parameter ones, incl. `any` parameters before typed ones) (user-written incl. parameters spelled like the function, recursion and captured cells, native and user-written iterators, std functions) x argument lists of 0 to 4 values: Function::create_call must accept exactly the argument lists the in-language call `f(v)` accepts and return the same value or error. Non-trivial = a later input mentions an earlier binding / an ill-typed or wrong-arity argument list; distinct by text.",
